@@ -173,8 +173,8 @@ func WorkerMain(t *testing.T, engine, family string, c Case) {
 			}
 		}
 		// the rendered case must be identical, otherwise the replay diverged
-		want, _ := json.Marshal(r.Rendered)
-		got, _ := json.Marshal(normJSON(out.Rendered))
+		want, _ := json.Marshal(dropSchedule(r.Rendered))
+		got, _ := json.Marshal(dropSchedule(normJSON(out.Rendered)))
 		if string(want) != string(got) && os.Getenv("VERIF_REPLAY_LAX") == "" {
 			fmt.Printf("REPLAY-DIVERGED property=%s file=%s\n", r.Property, path)
 			if os.Getenv("VERIF_DUMP") != "" {
@@ -200,6 +200,7 @@ func WorkerMain(t *testing.T, engine, family string, c Case) {
 	}
 	dump := os.Getenv("VERIF_DUMP") != ""
 	maxShrink := int(envInt("VERIF_SHRINK_TRIES", 200))
+	known := loadKnown(os.Getenv("VERIF_KNOWN"))
 
 	sum := &Summary{Property: prop, Engine: engine, Family: family, Reach: map[string]int{}, Strategies: map[string]int{}, Inconclusive: map[string]int{}, Foreign: map[string]int{}, ForeignMsg: map[string]string{}}
 	hashes := map[uint64]struct{}{}
@@ -280,7 +281,7 @@ func WorkerMain(t *testing.T, engine, family string, c Case) {
 				return false, nil
 			}
 			best, tries := orig, 0
-			if maxShrink > 0 {
+			if maxShrink > 0 && !known.match(v.Prop, v.Sig) {
 				best, tries = Shrink(orig, maxShrink, test)
 			}
 			c3 := NewReplayChoices(best)
@@ -333,6 +334,65 @@ func WorkerMain(t *testing.T, engine, family string, c Case) {
 	if out := os.Getenv("VERIF_OUT"); out != "" {
 		_ = os.WriteFile(out, b, 0o644)
 	}
+}
+
+// knownSet: open entries of known_findings.json. A violation that matches one is still reported to the driver
+// (which prints KNOWN-FINDING), but no time is spent minimising it again.
+type knownSet []struct {
+	Property string `json:"property"`
+	Sig      string `json:"signature"`
+	Re       string `json:"signature_regex"`
+	Status   string `json:"status"`
+}
+
+func loadKnown(path string) knownSet {
+	if path == "" {
+		return nil
+	}
+	b, err := os.ReadFile(path)
+	if err != nil {
+		return nil
+	}
+	var d struct {
+		Findings knownSet `json:"findings"`
+	}
+	if json.Unmarshal(b, &d) != nil {
+		return nil
+	}
+	return d.Findings
+}
+
+func (k knownSet) match(prop, sig string) bool {
+	for _, f := range k {
+		if f.Property != prop || (f.Status != "" && f.Status != "open") {
+			continue
+		}
+		if f.Sig == sig {
+			return true
+		}
+		if f.Re != "" {
+			if re, err := regexp.Compile("^(?:" + f.Re + ")$"); err == nil && re.MatchString(sig) {
+				return true
+			}
+		}
+	}
+	return false
+}
+
+// dropSchedule removes the human-readable scheduling log from a rendered case before comparison: its site
+// names may be permuted by map iteration inside the system under test (see Sim.Drive).
+func dropSchedule(v any) any {
+	m, ok := v.(map[string]any)
+	if !ok {
+		return v
+	}
+	c := map[string]any{}
+	for k, x := range m {
+		if k != "schedule" {
+			c[k] = x
+		}
+	}
+	return c
 }
 
 // normJSON round-trips a value through JSON so that comparisons see the same shapes as a decoded file.
